@@ -8,6 +8,7 @@
      [6; ns; sp; sq; bd; b0n; b1n]            expanded taper codes of _freq_filter (si = sp/sq, b = bn/bd)
      [7; ns; is_complex]                      dft: number of output coefficients
      [8; b0n; b1n; xn]                        fcn_cosine taper code at x (integers over a common denominator)
+     [10; ns; is_complex; m]                  dft with kscale of m entries (m < 0: kscale=None): number of coefficients
      [9; dx; dw]                              convolve: result dtype (0 float32, 1 float64, 2 integer) of operand dtypes
    output: see `run` (options as 0 / 1 :: payload, lists length-prefixed). *)
 From Coq Require Import ZArith List Bool.
@@ -45,6 +46,7 @@ Definition run (inp : list Z) : list Z :=
       enc_option (enc_list enc_triple) (freq_response ns sp sq bd b0n b1n)
   | [7; ns; c] => [dft_nk ns (c =? 1)]
   | [8; b0n; b1n; xn] => enc_triple (taper_code b0n b1n xn)
+  | [10; ns; c; m] => [dft_nk_k ns (c =? 1) (if m <? 0 then None else Some m)]
   | [9; dx; dw] => [enc_dtype (conv_result_dtype (dec_dtype dx) (dec_dtype dw))]
   | _ => [-999]
   end.
